@@ -54,6 +54,7 @@ type Program struct {
 	boxedDone bool
 	fvCands   map[string][]*ssa.Function
 	specDir   string
+	findings  []Finding
 	lineCache map[*ssa.Function][]int
 	repoDir   string
 }
@@ -102,6 +103,9 @@ func LoadProgram(repoDir, specDir string) (*Program, error) {
 		} else if fn.Origin() != nil && fn.Origin().Pkg != nil {
 			// generic instance
 			p.byKey[fn.Origin().Pkg.Pkg.Path()+"::"+fn.RelString(fn.Origin().Pkg.Pkg)] = fn
+		} else if fn.Object() != nil && fn.Object().Pkg() != nil {
+			// synthetic wrappers (bound-method closures "$bound", thunks)
+			p.byKey[fn.Object().Pkg().Path()+"::"+fn.RelString(fn.Object().Pkg())] = fn
 		}
 	}
 	cs, err := LoadContracts(repoDir, pkgDirs)
